@@ -212,6 +212,78 @@ def native_replay(module_name, unit_name, model):
     return out
 
 
+def _sample_int(rnd, lo, hi):
+    if lo is not None and hi is not None and hi - lo <= 64:
+        return rnd.randint(lo, hi)
+    cands = [0, 1, -1, 2, 3, 4, 5, 7, 8, 31, 32, 33, 127, 128, 255, 256, 2047, 2048, 4095, 4096, 65535, 65536,
+             2 ** 31 - 1, 2 ** 31, 2 ** 31 + 1, 2 ** 32 - 1, 2 ** 32, 2 ** 32 + 1, -2 ** 31, -2 ** 31 - 1, -2048, -2049, -4096,
+             2 ** 14, 2 ** 14 - 1, 2 ** 14 + 1]
+    r = rnd.random()
+    if r < 0.35:
+        v = rnd.choice(cands)
+    elif r < 0.5 and lo is not None and hi is not None:
+        v = rnd.choice([lo, hi, lo + 1, hi - 1])
+    elif lo is not None and hi is not None:
+        if rnd.random() < 0.5:
+            v = rnd.randint(lo, hi)
+        else:
+            bl = rnd.randint(0, max(1, (hi - lo).bit_length()))
+            v = lo + rnd.getrandbits(bl) if rnd.random() < 0.5 else hi - rnd.getrandbits(bl)
+    else:
+        v = rnd.getrandbits(rnd.randint(1, 40)) * rnd.choice([1, -1])
+    if lo is not None and v < lo:
+        v = lo
+    if hi is not None and v > hi:
+        v = hi
+    return v
+
+
+def adjudicate(module_name, unit_name, n, seed=0, want=None):
+    """BOUNDED stand-in for an undecided unit/obligation: the contract is evaluated natively on the real code for n
+    pseudo-random + boundary inputs.  Returns (evaluations, failure or None); failure = dict(model, replay, name)."""
+    import random
+    from . import api
+    rnd = random.Random(seed * 7919 + hash(unit_name) % 100003)
+    # discover the inputs with one default run
+    rep = native_replay(module_name, unit_name, {})
+    decls = dict(api.INPUTS)
+    evals = 0
+    for i in range(n):
+        model = {}
+        for name, d in decls.items():
+            if d[0] == "int":
+                model[name] = _sample_int(rnd, d[1], d[2])
+            elif d[0] == "bool":
+                model[name] = rnd.random() < 0.5
+        api.LAZY[0] = random.Random(rnd.getrandbits(32))
+        try:
+            rep = native_replay(module_name, unit_name, model)
+            maps = {name: m for name, (m, _) in api.LAZY_MAPS.items()}
+        finally:
+            api.LAZY[0] = None
+        decls.update(api.INPUTS)
+        if rep["assume_failed"]:
+            continue
+        evals += 1
+        bad = [nm for nm, ok in rep["results"] if not ok]
+        if rep["exception"] is not None:
+            bad.append("noexc")
+        if want is not None:
+            base = want
+            for suf in (".keys", ".values"):
+                if base.endswith(suf):
+                    base = base[: -len(suf)]
+            bad = [b for b in bad if b == want or b.startswith(base)]
+        if bad:
+            for name, m in maps.items():
+                pres = dict(m._seen)
+                vals = dict(m._pre)
+                model[name] = (vals, None)
+                model[name + "#p"] = (pres, None)
+            return evals, {"model": model, "replay": rep, "name": bad[0]}
+    return evals, None
+
+
 def confirm(ob_name, rep):
     """Does the native run exhibit the failure the obligation names?"""
     if rep["assume_failed"]:
@@ -264,6 +336,26 @@ def _worker(args):
             except BaseException as e:
                 ob.replay = {"confirmed": False, "error": repr(e)[:500]}
     return r
+
+
+def _adj_worker(args):
+    module_name, unit_name, n, seed = args
+    try:
+        return adjudicate(module_name, unit_name, n, seed)
+    except BaseException as e:
+        return 0, {"error": repr(e)[:500]}
+
+
+def run_adjudications(jobs, n, seed, procs=None):
+    procs = procs or min(16, os.cpu_count() or 4)
+    args = [(m, u, n, seed) for m, u in jobs]
+    if not args:
+        return []
+    if len(args) == 1:
+        return [_adj_worker(args[0])]
+    ctx = mp.get_context("fork")
+    with ctx.Pool(min(procs, len(args))) as pool:
+        return pool.map(_adj_worker, args, chunksize=1)
 
 
 def list_units(module_name):
